@@ -152,6 +152,7 @@ class SuccessionDiagram:
     def __getstate__(self) -> SuccessionDiagramState:
         return {
             "network_rules": self.network.to_aeon(),
+            "variable_names": self.network.variable_names(),
             "petri_net": self.petri_net,
             "nfvs": self.nfvs,
             "dag": self.dag,
@@ -160,8 +161,22 @@ class SuccessionDiagram:
         }
 
     def __setstate__(self, state: SuccessionDiagramState):
+        network = BooleanNetwork.from_aeon(state["network_rules"])
+        # The `.aeon` parser orders variables alphabetically, but node keys
+        # (`node_indices`) and the ordering of successors depend on the original
+        # variable order, so it has to be restored if it was different.
+        variable_names = state.get("variable_names")
+        if variable_names is not None and network.variable_names() != variable_names:
+            reordered = BooleanNetwork(variable_names)
+            for regulation in network.regulation_strings():
+                reordered.add_regulation(regulation)
+            for variable in variable_names:
+                update = network.get_update_function(variable)
+                if update is not None:
+                    reordered.set_update_function(variable, str(update))
+            network = reordered
         # In theory, the network should be cleaned-up at this point, but just in case...
-        self.network = cleanup_network(BooleanNetwork.from_aeon(state["network_rules"]))
+        self.network = cleanup_network(network)
         self.symbolic = AsynchronousGraph(self.network)
         self.petri_net = state["petri_net"]
         self.nfvs = state["nfvs"]
